@@ -32,13 +32,16 @@ import (
 	"sort"
 	"strconv"
 	"strings"
+	"sync"
 	"syscall"
 	"testing"
 	"testing/synctest"
+	"time"
 
 	"github.com/gin-gonic/gin"
 
 	"github.com/ollama/ollama/api"
+	"github.com/ollama/ollama/envconfig"
 	"github.com/ollama/ollama/fs/ggml"
 	"github.com/ollama/ollama/zzverif"
 )
@@ -47,8 +50,41 @@ import (
 // operation specs
 
 type c12Blob struct {
-	Digest string `json:"digest"` // sha256:<hex>
-	Data   string `json:"data"`   // hex
+	Digest string `json:"digest"`         // sha256:<hex>
+	Data   string `json:"data,omitempty"` // hex
+	// generated content (large blobs: > 100 MB so that the download is split into >= 2 parts)
+	GenSize int    `json:"gen_size,omitempty"`
+	GenSeed uint64 `json:"gen_seed,omitempty"`
+}
+
+var c12GenCache sync.Map
+
+// c12GenData is a cheap deterministic byte string: a 1 MiB pseudo-random block repeated, each
+// repetition stamped with its index (so that no two 1 MiB windows are equal).
+func c12GenData(size int, seed uint64) []byte {
+	key := fmt.Sprintf("%d/%d", size, seed)
+	if v, ok := c12GenCache.Load(key); ok {
+		return v.([]byte)
+	}
+	block := zzverif.NewRng(seed).Bytes(1 << 20)
+	out := make([]byte, size)
+	for off, i := 0, 0; off < size; off, i = off+len(block), i+1 {
+		n := copy(out[off:], block)
+		if n >= 8 {
+			for j := 0; j < 8; j++ {
+				out[off+j] ^= byte(i >> (8 * j))
+			}
+		}
+	}
+	c12GenCache.Store(key, out)
+	return out
+}
+
+func (b c12Blob) bytes() []byte {
+	if b.GenSize > 0 {
+		return c12GenData(b.GenSize, b.GenSeed)
+	}
+	return zzverif.Unhex(b.Data)
 }
 
 type c12Op struct {
@@ -63,6 +99,25 @@ type c12Op struct {
 	Manifest string    `json:"manifest,omitempty"` // JSON text
 	Blobs    []c12Blob `json:"blobs,omitempty"`
 	Chunk    int       `json:"chunk,omitempty"` // body piece size (bytes per Read)
+	// pull of a multi-part blob: the body of the part that starts at offset 0 only starts to arrive after
+	// 5 s (fake time), so that every later part has completed while the first is still in flight
+	SlowFirst bool `json:"slow_first,omitempty"`
+	// configuration: OLLAMA_NOPRUNE=1 (no start-up prune; create/pull keep replaced layers)
+	NoPrune bool `json:"noprune,omitempty"`
+}
+
+type c12DelayReader struct {
+	r    io.Reader
+	d    time.Duration
+	done bool
+}
+
+func (r *c12DelayReader) Read(p []byte) (int, error) {
+	if !r.done {
+		r.done = true
+		time.Sleep(r.d)
+	}
+	return r.r.Read(p)
 }
 
 func c12Digest(b []byte) string { return fmt.Sprintf("sha256:%x", sha256.Sum256(b)) }
@@ -95,7 +150,16 @@ func (rt *c12RT) RoundTrip(req *http.Request) (*http.Response, error) {
 		}
 		var rc io.ReadCloser = http.NoBody
 		if body != nil && req.Method != http.MethodHead {
-			rc = io.NopCloser(&c12PieceReader{b: body, k: max(1, rt.op.Chunk)})
+			k := max(1, rt.op.Chunk)
+			if len(body) > 1<<20 {
+				k = 1 << 30 // large bodies: as much as the reader's buffer takes (io.Copy: 32 KiB)
+			}
+			var r io.Reader = &c12PieceReader{b: body, k: k}
+			if d, ok := hdr["X-Verif-Delay"]; ok {
+				dd, _ := time.ParseDuration(d)
+				r = &c12DelayReader{r: r, d: dd}
+			}
+			rc = io.NopCloser(r)
 		}
 		return &http.Response{StatusCode: code, Status: strconv.Itoa(code), Proto: "HTTP/1.1", ProtoMajor: 1, ProtoMinor: 1,
 			Header: h, Body: rc, ContentLength: -1, Request: req}
@@ -103,7 +167,7 @@ func (rt *c12RT) RoundTrip(req *http.Request) (*http.Response, error) {
 	find := func(d string) []byte {
 		for _, b := range rt.op.Blobs {
 			if b.Digest == d {
-				return zzverif.Unhex(b.Data)
+				return b.bytes()
 			}
 		}
 		return nil
@@ -125,7 +189,11 @@ func (rt *c12RT) RoundTrip(req *http.Request) (*http.Response, error) {
 		if lo > hi+1 || hi >= len(data) {
 			return mk(416, []byte("range"), nil), nil
 		}
-		return mk(206, data[lo:hi+1], nil), nil
+		var hdr map[string]string
+		if rt.op.SlowFirst && lo == 0 && len(data) > 100_000_000 {
+			hdr = map[string]string{"X-Verif-Delay": "5s"}
+		}
+		return mk(206, data[lo:hi+1], hdr), nil
 	case strings.Contains(p, "/blobs/"):
 		d := p[strings.LastIndex(p, "/")+1:]
 		data := find(d)
@@ -165,9 +233,9 @@ func c12Class(code int, body string) string {
 	case code == 404:
 		return "err:notfound"
 	default:
-		b := body
-		if len(b) > 160 {
-			b = b[:160]
+		b := strings.ReplaceAll(body, envconfig.Models(), "$M")
+		if len(b) > 300 {
+			b = b[:300]
 		}
 		return fmt.Sprintf("err:%d:%s", code, strings.ReplaceAll(strings.TrimSpace(b), "\n", " "))
 	}
@@ -180,7 +248,7 @@ func c12RunOp(t *testing.T, op *c12Op) string {
 	noStream := false
 	upload := func(b c12Blob) string {
 		w := c12Call(s.CreateBlobHandler, gin.Params{{Key: "digest", Value: b.Digest}},
-			&c12PieceReader{b: zzverif.Unhex(b.Data), k: max(1, op.Chunk)})
+			&c12PieceReader{b: b.bytes(), k: max(1, op.Chunk)})
 		return c12Class(w.Code, w.Body.String())
 	}
 	switch op.Kind {
@@ -247,6 +315,7 @@ type c12Sys struct {
 	Data        []byte
 	Ret         int64
 	Idx         int // 1-based index among counted store syscalls
+	Big         bool
 }
 
 const (
@@ -375,7 +444,11 @@ func c12Decode(pid, tid int, r *syscall.PtraceRegs, store string) *c12Sys {
 		}
 	}
 	if nr == 1 || nr == 18 {
-		ev.Data = c12ReadMem(tid, uintptr(a[1]), int(min(ev.Len, 1<<20)))
+		if ev.Len <= 8192 { // large writes (multi-part bodies) are recorded by length only
+			ev.Data = c12ReadMem(tid, uintptr(a[1]), int(ev.Len))
+		} else {
+			ev.Big = true
+		}
 	}
 	return ev
 }
@@ -475,7 +548,7 @@ func c12Trace(argv, env []string, store string, killAt int, logPath string) (evs
 					var regs syscall.PtraceRegs
 					if e := syscall.PtraceGetRegs(wpid, &regs); e == nil {
 						ev.Ret = int64(regs.Rax)
-						if (ev.Nr == 1 || ev.Nr == 18) && ev.Ret >= 0 && int(ev.Ret) <= len(ev.Data) {
+						if (ev.Nr == 1 || ev.Nr == 18) && !ev.Big && ev.Ret >= 0 && int(ev.Ret) <= len(ev.Data) {
 							ev.Data = ev.Data[:ev.Ret]
 						}
 						evs = append(evs, *ev)
@@ -620,7 +693,11 @@ func (c *c12Canon) effects(evs []c12Sys) []string {
 			if e.Ret == 0 {
 				continue
 			}
-			out = append(out, fmt.Sprintf("pw %s %d %s", p, e.Off, zzverif.Hex(e.Data)))
+			if e.Big {
+				out = append(out, fmt.Sprintf("pw %s %d big:%d", p, e.Off, e.Ret))
+			} else {
+				out = append(out, fmt.Sprintf("pw %s %d %s", p, e.Off, zzverif.Hex(e.Data)))
+			}
 		case 77:
 			out = append(out, fmt.Sprintf("ftr %s %d", p, e.Len))
 		case 82, 264, 316:
@@ -661,8 +738,24 @@ func c12State(store string) []string {
 		if err != nil || fi.IsDir() {
 			return nil
 		}
-		data, _ := os.ReadFile(p)
 		cp := c.path(p)
+		if fi.Size() > 1<<20 { // summarise: length + hash of a 4 KiB sample every MiB
+			h := sha256.New()
+			if f, err := os.Open(p); err == nil {
+				buf := make([]byte, 4096)
+				for off := int64(0); off < fi.Size(); off += 1 << 20 {
+					n, _ := f.ReadAt(buf, off)
+					h.Write(buf[:n])
+				}
+				f.Close()
+			}
+			if strings.HasPrefix(cp, "T:") {
+				cp = "T:*"
+			}
+			out = append(out, fmt.Sprintf("%s=big:%d:%x", cp, fi.Size(), h.Sum(nil)[:8]))
+			return nil
+		}
+		data, _ := os.ReadFile(p)
 		kind := cp
 		if strings.HasPrefix(cp, "T:") {
 			cp = "T:*"
@@ -743,6 +836,9 @@ func c12Restart() (pruned bool, err error) {
 	}
 	if err := fixBlobs(blobsDir); err != nil {
 		return false, err
+	}
+	if envconfig.NoPrune() {
+		return false, nil
 	}
 	if _, err := Manifests(false); err != nil {
 		return false, nil // "corrupt manifests detected, skipping prune operation"
@@ -989,6 +1085,14 @@ func TestVerifC12(t *testing.T) {
 			}
 		}
 		env = append(env, "OLLAMA_MODELS="+dir, "VERIF_C12_CHILD="+specPath, "GOMAXPROCS=2")
+		for i := len(env) - 1; i >= 0; i-- {
+			if strings.HasPrefix(env[i], "OLLAMA_NOPRUNE=") {
+				env = append(env[:i], env[i+1:]...)
+			}
+		}
+		if op.NoPrune {
+			env = append(env, "OLLAMA_NOPRUNE=1")
+		}
 		evs, killed, entered, err := c12Trace([]string{self, "-test.run=^TestVerifC12Child$", "-test.count=1"}, env, dir, killAt, dir+".log")
 		res, _ := os.ReadFile(specPath + ".result")
 		return evs, killed, entered, string(res), err
@@ -1131,33 +1235,56 @@ func TestVerifC12(t *testing.T) {
 			Store, Label string
 			Op           *c12Op
 			Involved     []string
+			NoL1         bool // multi-part pull: outside the Lean model; L2 monitors only, sampled body writes
+		}
+		// the same operations under OLLAMA_NOPRUNE=1 (no start-up prune, replaced layers are kept)
+		np := func(op c12Op) *c12Op { op.NoPrune = true; return &op }
+		// a layer of 100 MB + a few bytes: two download parts (100 MB, then the rest); the body of part 0 starts to
+		// arrive only after part 1 has completed, so every kill during part 0 has "a later part finished, an
+		// earlier one in flight"
+		var opPullBig *c12Op
+		if round == 0 {
+			big := c12Blob{GenSize: 100_000_000 + r.Range(40, 90), GenSeed: r.U64()}
+			big.Digest = c12Digest(big.bytes())
+			m := Manifest{SchemaVersion: 2, MediaType: "application/vnd.docker.distribution.manifest.v2+json"}
+			m.Config = Layer{MediaType: "application/vnd.docker.container.image.v1+json", Digest: c12Digest(cfg1), Size: int64(len(cfg1))}
+			m.Layers = []Layer{{MediaType: "application/vnd.ollama.image.model", Digest: big.Digest, Size: int64(big.GenSize)}}
+			mj, _ := json.Marshal(m)
+			opPullBig = &c12Op{Kind: "pull", Name: "g", Manifest: string(mj), Blobs: append(c12Blobs(cfg1), big), Chunk: chunk,
+				SlowFirst: true, NoPrune: true}
 		}
 		inv := func(n string) []string { return []string{c12Lib + n + "/latest"} }
 		scen := []scenario{
-			{"S1", "upload-new", &c12Op{Kind: "upload", Uploads: c12Blobs(g2), Chunk: chunk}, nil},
-			{"S1", "create-new", &opCreateNew, inv("d")},
-			{"S1", "create-replace", &opCreateRepl, inv("a")},
-			{"S1", "copy-new", &opCopyNew, inv("e")},
-			{"S1", "copy-over", &opCopyOver, inv("c")},
-			{"S1", "delete-shared", &opDelShared, inv("a")},
-			{"S1", "delete-unshared", &opDelUnshared, inv("c")},
-			{"S1", "pull-new", &opPullNew, inv("f")},
-			{"S1", "pull-update", &opPullUpd, inv("c")},
-			{"S2", "pull-new", &opPullNew, inv("f")},
-			{"S2", "create-new", &opCreateNew, inv("d")},
-			{"S3", "pull-new", &opPullNew, inv("f")},
+			{"S1", "upload-new", &c12Op{Kind: "upload", Uploads: c12Blobs(g2), Chunk: chunk}, nil, false},
+			{"S1", "create-new", &opCreateNew, inv("d"), false},
+			{"S1", "create-replace", &opCreateRepl, inv("a"), false},
+			{"S1", "copy-new", &opCopyNew, inv("e"), false},
+			{"S1", "copy-over", &opCopyOver, inv("c"), false},
+			{"S1", "delete-shared", &opDelShared, inv("a"), false},
+			{"S1", "delete-unshared", &opDelUnshared, inv("c"), false},
+			{"S1", "pull-new", &opPullNew, inv("f"), false},
+			{"S1", "pull-update", &opPullUpd, inv("c"), false},
+			{"S2", "pull-new", &opPullNew, inv("f"), false},
+			{"S2", "create-new", &opCreateNew, inv("d"), false},
+			{"S3", "pull-new", &opPullNew, inv("f"), false},
+			{"S1", "pull-new-noprune", np(opPullNew), inv("f"), false},
+			{"S1", "pull-update-noprune", np(opPullUpd), inv("c"), false},
+			{"S1", "create-replace-noprune", np(opCreateRepl), inv("a"), false},
+		}
+		if opPullBig != nil {
+			scen = append(scen, scenario{"S1", "pull-multipart-noprune", opPullBig, inv("g"), true})
 		}
 		if thorough {
 			scen = append(scen,
-				scenario{"S1", "create-share", &opCreateShare, inv("d")},
-				scenario{"S2", "pull-update", &opPullUpd, inv("c")},
-				scenario{"S2", "create-replace", &opCreateRepl, inv("a")},
-				scenario{"S2", "copy-over", &opCopyOver, inv("c")},
-				scenario{"S2", "delete-unshared", &opDelUnshared, inv("c")},
-				scenario{"S2", "delete-shared", &opDelShared, inv("a")},
-				scenario{"S3", "pull-update", &opPullUpd, inv("c")},
-				scenario{"S4", "pull-new", &opPullNew, inv("f")},
-				scenario{"S4", "pull-update", &opPullUpd, inv("c")},
+				scenario{"S1", "create-share", &opCreateShare, inv("d"), false},
+				scenario{"S2", "pull-update", &opPullUpd, inv("c"), false},
+				scenario{"S2", "create-replace", &opCreateRepl, inv("a"), false},
+				scenario{"S2", "copy-over", &opCopyOver, inv("c"), false},
+				scenario{"S2", "delete-unshared", &opDelUnshared, inv("c"), false},
+				scenario{"S2", "delete-shared", &opDelShared, inv("a"), false},
+				scenario{"S3", "pull-update", &opPullUpd, inv("c"), false},
+				scenario{"S4", "pull-new", &opPullNew, inv("f"), false},
+				scenario{"S4", "pull-update", &opPullUpd, inv("c"), false},
 			)
 		}
 
@@ -1180,19 +1307,33 @@ func TestVerifC12(t *testing.T) {
 				lg, _ := os.ReadFile(full + ".log")
 				t.Fatalf("%s: uninterrupted child failed: %v\n%s", tag, err, lg)
 			}
-			effs := (&c12Canon{store: full, temps: map[string]int{}}).effects(evs)
-			opToks, hashed := c12OpTokens(sc.Op, full)
-			for _, e := range baseState { // blobs already in the store may be hashed by verify
-				_ = e
+			// canonical effects, per syscall (one pass; the temp numbering is shared)
+			per := make([][]string, len(evs))
+			var effs []string
+			{
+				cn := &c12Canon{store: full, temps: map[string]int{}}
+				for i := range evs {
+					per[i] = cn.effects(evs[i : i+1])
+					effs = append(effs, per[i]...)
+				}
 			}
-			job := fmt.Sprintf("%s %s %d %d %d %s", c12StoreTokens(baseState, true), c12HashTokens(hashed), max(1, sc.Op.Chunk), am, ap, opToks)
-			okTok := " | ok"
-			if res != "ok" {
-				okTok = " | fail"
+			job := ""
+			if !sc.NoL1 {
+				opToks, hashed := c12OpTokens(sc.Op, full)
+				npTok := 0
+				if sc.Op.NoPrune {
+					npTok = 1
+					out.Count("noprune_scenarios")
+				}
+				job = fmt.Sprintf("%s %s %d %d %d %d %s", c12StoreTokens(baseState, true), c12HashTokens(hashed), max(1, sc.Op.Chunk), am, ap, npTok, opToks)
+				okTok := " | ok"
+				if res != "ok" {
+					okTok = " | fail"
+				}
+				out.Case("effects "+job, strings.Join(effs, " ; ")+okTok)
+				out.Count("l1_effects_lines")
+				out.Add("l1_effects_total", len(effs))
 			}
-			out.Case("effects "+job, strings.Join(effs, " ; ")+okTok)
-			out.Count("l1_effects_lines")
-			out.Add("l1_effects_total", len(effs))
 			out.Count("op_" + sc.Op.Kind)
 			fullReadable := c12ReadableListing(full)
 			// contract behind the model's `put`: a manifest / part record is written by ONE write and every
@@ -1236,12 +1377,14 @@ func TestVerifC12(t *testing.T) {
 			// number of model effects completed before store syscall N is entered
 			effBefore := make([]int, entered+2)
 			for n := 1; n <= entered+1; n++ {
-				effBefore[n] = len((&c12Canon{store: full, temps: map[string]int{}}).effects(evs[:min(n-1, len(evs))]))
+				effBefore[n] = effBefore[n-1]
+				if n >= 2 && n-2 < len(per) {
+					effBefore[n] += len(per[n-2])
+				}
 			}
 			window := func(n int) string {
 				if n-1 < len(evs) {
-					w := (&c12Canon{store: full, temps: map[string]int{}}).effects(evs[:n])
-					if len(w) > effBefore[n] {
+					if w := per[n-1]; len(w) > 0 {
 						x := w[len(w)-1]
 						if f := strings.Fields(x); len(f) > 2 {
 							x = f[0] + " " + f[1]
@@ -1255,10 +1398,40 @@ func TestVerifC12(t *testing.T) {
 				}
 				return "?"
 			}
+			// which kill points: all of them; for the multi-part pull the thousands of 32 KiB body writes are
+			// sampled (first, middle, last of every run of consecutive large writes)
+			var points []int
+			for n := 1; n <= entered; n++ {
+				if sc.NoL1 && n-1 < len(evs) && evs[n-1].Big {
+					lo := n
+					for n+1 <= entered && n < len(evs) && evs[n].Big {
+						n++
+					}
+					points = append(points, lo)
+					if n > lo+1 {
+						points = append(points, (lo+n)/2)
+					}
+					if n > lo {
+						points = append(points, n)
+					}
+					out.Add("multipart_body_writes", n-lo+1)
+					continue
+				}
+				points = append(points, n)
+			}
+			if sc.NoL1 {
+				nrec := 0
+				for _, e := range effs {
+					if strings.HasPrefix(e, "mv T:") && strings.Contains(e, " R:") || strings.HasPrefix(e, "put R:") {
+						nrec++
+					}
+				}
+				out.Add("multipart_record_writes", nrec)
+			}
 
 			// ---- every crash point
 			seen := map[string]bool{}
-			for n := 1; n <= entered; n++ {
+			for _, n := range points {
 				if replay != "" && !strings.HasPrefix(replay, fmt.Sprintf("%s %d ", tag, n)) {
 					continue
 				}
@@ -1283,6 +1456,9 @@ func TestVerifC12(t *testing.T) {
 				out.Count("crash_states_distinct")
 				k := effBefore[n]
 				inRmRun := sc.Op.Kind == "pull" && k > 0 && k < len(effs) && strings.HasPrefix(effs[k-1], "rm B:") && strings.HasPrefix(effs[k], "rm B:")
+				if sc.NoL1 {
+					inRmRun = true // no L1 lines for this scenario
+				}
 				if !inRmRun {
 					out.Case(fmt.Sprintf("crash %d %s", k, job), c12Join(crashed))
 					out.Count("l1_crash_lines")
@@ -1290,6 +1466,11 @@ func TestVerifC12(t *testing.T) {
 
 				// ---- restart (the real start-up sequence) and the L2 walk
 				t.Setenv("OLLAMA_MODELS", dir)
+				if sc.Op.NoPrune {
+					os.Setenv("OLLAMA_NOPRUNE", "1")
+				} else {
+					os.Unsetenv("OLLAMA_NOPRUNE")
+				}
 				pruned, err := c12Restart()
 				if err != nil {
 					out.L2("restart-failed", caseLine, err.Error())
@@ -1359,6 +1540,7 @@ func TestVerifC12(t *testing.T) {
 					out.Count("l1_rerun_lines")
 				}
 				out.Count("rerun_" + strings.SplitN(res2, ":", 3)[0])
+				os.Unsetenv("OLLAMA_NOPRUNE")
 				os.RemoveAll(dir)
 			}
 		}
